@@ -237,6 +237,13 @@ def run_commuting(c, bath=None, sysm=None):
         else:
             pt = C.run_pt(bath, prm, 0.0, n, c["unique"])
             times, states = C.run_pt_dynamics(sysm, pt, rho0, 0.0)
+            # the same process tensor object used a second time (another initial state in between) must answer the same
+            C.run_pt_dynamics(sysm, pt, np.eye(len(rho0), dtype=complex) / len(rho0), 0.0)
+            times2, states2 = C.run_pt_dynamics(sysm, pt, rho0, 0.0)
+            if states2.shape != states.shape or np.abs(states2 - states).max() > 1e-12:
+                res["exc"] = ("run", "second-use-of-the-process-tensor-differs",
+                              f"max dev {np.abs(states2 - states).max() if states2.shape == states.shape else 'shape'}")
+                return res
     except Exception as ex:  # noqa
         res["exc"] = ("run", f"{type(ex).__name__}", str(ex)[:120])
         return res
